@@ -263,6 +263,8 @@ def main(argv=None):
             mod.finalize(cov, results)
         except Exception as e:      # noqa
             cov["finalize_error"] = repr(e)
+        for k, v in (cov.get("counters") or {}).items():     # finalize may add measured counters
+            counters[k] = v
 
     reasons = []
     if lost:
